@@ -43,6 +43,26 @@ def c19(run):
     dr = fresh_dir(run.prop, "rec")
     tr = os.path.join(dr, "events.ndjson")
     s2, _ = run_harness(["record-set", tr, "3", str(2000 if t else 150), "60"])
+    # wider universes (5 and 8 bits): the encoding handles every bit position the same way only if it says so
+    for bits, hists, ops in ((5, 600 if t else 60, 40), (8, 120 if t else 16, 30)):
+        trw = os.path.join(dr, "events_b%d.ndjson" % bits)
+        sw, _ = run_harness(["record-set", trw, str(bits), str(hists), str(ops)])
+        accw, rejw, tlcw, linesw = validate_trace("Trace_BddSet", trw, {"Bits": bits}, os.path.join(run.prop, "tv_b%d" % bits), shards=8, boundary='"k":"reset"')
+        for i, r in enumerate(tlcw):
+            run.add_tlc("trace_b%d_%d" % (bits, i), r, require_actions=["Step"])
+        run.impl_traces += accw
+        run.evaluations += len(linesw)
+        run.extra.setdefault("i2s_wide", {})["bits=%d" % bits] = sw
+        for i in rejw:
+            j = i
+            while j > 0 and '"k":"reset"' not in linesw[j]:
+                j -= 1
+            hist = [json.loads(x) for x in linesw[j + 1:i + 1]]
+            rec = hist[-1]
+            calls = [{"op": h["op"], "x": h["x"], "y": h["y"], "e": h["e"]} for h in hist]
+            run.violation("set-i2s:bits%d:%s:%s" % (bits, rec["op"], rejw.reasons.get(i, "")),
+                          "Trace_BddSet (bits=%d) rejects event %d (%s): %s" % (bits, i, rejw.reasons.get(i, ""), linesw[i].strip()[:300]),
+                          {"mode": "set-history", "bits": bits, "calls": calls})
     acc, rej, tlcs, lines = validate_trace("Trace_BddSet", tr, {"Bits": 3}, os.path.join(run.prop, "tv"), shards=8, boundary='"k":"reset"')
     for i, r in enumerate(tlcs):
         run.add_tlc("trace_%d" % i, r, require_actions=["Step"])
